@@ -19,8 +19,10 @@ REPLAYS = os.path.join(VERIF, "replays")
 KNOWN = os.path.join(VERIF, "known_findings.txt")
 
 ASAN_ENV = {
+    # quarantine / malloc_context_size: measured - with the defaults the stack depot grows by ~11 MB per 1000 rapidcheck cases
+    # (4.5 GB per shard in a 400000-case thorough shard, 16 shards -> the kernel's OOM killer); with these a shard stays < 200 MB
     "ASAN_OPTIONS": "abort_on_error=0:detect_leaks=1:allocator_may_return_null=1:detect_stack_use_after_return=1:"
-                    "strict_string_checks=1:exitcode=86",
+                    "strict_string_checks=1:quarantine_size_mb=64:malloc_context_size=8:exitcode=86",
     "UBSAN_OPTIONS": "print_stacktrace=1:halt_on_error=1:exitcode=86",
     "TSAN_OPTIONS": "halt_on_error=1:exitcode=86:second_deadlock_stack=1",
     "LSAN_OPTIONS": "exitcode=86",
@@ -136,8 +138,19 @@ def stage_pbt(pid, stage, tier):
         jobs.append((cmd, env, cfg.get("timeout", 3600), os.path.join(wd, "log-%d.txt" % k)))
     t0 = time.time()
     results = run_parallel(jobs)
+    # A shard ended by SIGKILL / SIGTERM was stopped from outside (out-of-memory killer, operator): that says nothing about the
+    # property.  It is re-run once on its own; if it is killed again the shard is inconclusive - noted, never a violation.
+    killed_shards = []
+    for k, (rc, _) in enumerate(results):
+        if rc in (-9, -15):
+            results[k] = run_proc(*jobs[k])
+            if results[k][0] in (-9, -15):
+                killed_shards.append(k)
     out.wall = time.time() - t0
     for k, (rc, _) in enumerate(results):
+        if k in killed_shards:
+            out.notes.append("shard %d was killed from outside twice (signal %d: out of memory?) - INCONCLUSIVE for its cases, not counted" % (k, -rc))
+            continue
         st = load_stats(os.path.join(wd, "stats-%d.json" % k))
         log = jobs[k][3]
         if rc == 0:
@@ -767,8 +780,19 @@ def stage_memcheck(pid, stage, tier, replay_path=None):
         jobs.append((cmd, env_for(), cfg.get("timeout", 3600), os.path.join(wd, "log-%d.txt" % k)))
     t0 = time.time()
     results = run_parallel(jobs)
+    # A shard ended by SIGKILL / SIGTERM was stopped from outside (out-of-memory killer, operator): that says nothing about the
+    # property.  It is re-run once on its own; if it is killed again the shard is inconclusive - noted, never a violation.
+    killed_shards = []
+    for k, (rc, _) in enumerate(results):
+        if rc in (-9, -15):
+            results[k] = run_proc(*jobs[k])
+            if results[k][0] in (-9, -15):
+                killed_shards.append(k)
     out.wall = time.time() - t0
     for k, (rc, _) in enumerate(results):
+        if k in killed_shards:
+            out.notes.append("shard %d was killed from outside twice (signal %d: out of memory?) - INCONCLUSIVE for its cases, not counted" % (k, -rc))
+            continue
         st = load_stats(os.path.join(wd, "stats-%d.json" % k))
         if st:
             out.stats.append(st)
